@@ -193,6 +193,16 @@ func TestVerifC14(t *testing.T) {
 				if A == nil || B == nil {
 					return nil
 				}
+				// the scans that produced A and B are operations on the caller's options too
+				for _, oc := range []struct {
+					got  *Opts
+					want *Opts
+					in   string
+				}{{optsA, inputs[ia].opts(), inputs[ia].name}, {optsB, inputs[ib].opts(), inputs[ib].name}} {
+					if g, w := fmt.Sprintf("%+v", *oc.got), fmt.Sprintf("%+v", *oc.want); g != w {
+						return &h.Viol{Fingerprint: "C14/state-changed:options:by:ScanSnapshot", Summary: "ScanSnapshot on input " + oc.in + " changed the caller's Opts", Key: key, Kind: "history", Expected: trunc(w), Observed: trunc(g)}
+					}
+				}
 				init := c14State(A, B, optsA, optsB)
 				states[init] = struct{}{}
 				var names []string
